@@ -69,6 +69,11 @@ Section Law.
     | Reverse => (Ok (rev l, None), [])
     | Sort m r => (Ok (sort (key_leb m) r l, None), [])
     | Clear => (Ok ([], None), [])
+    (* the built-in list takes an object with __index__ for the integer it stands for *)
+    | InsertX i v =>
+        match vld v with None => (Raise TraitError, []) | Some y => (Ok (insert l i y, None), []) end
+    | PopX i => (bind (pop l i) (fun p => Ok (snd p, Some (fst p))), [])
+    | ImulX n => (Ok (imul l n, None), [])
     end.
 
   Definition outcome_ok (out : res unit) (sr : spec_result) : bool :=
